@@ -802,7 +802,42 @@ def check_graph(desc: dict[str, Any], col: common.Collector) -> None:
         check_materialized(Gd, col, witd)
 
 
+def turnover(col: common.Collector, rounds: int = 120) -> None:
+    """One analysis object reused across graphs that come and go: its answers must not
+    depend on what lived at an address before (results memoised under id())."""
+    import gc
+
+    import numpy as np
+    import pytato as pt
+    from pytato.analysis import DirectPredecessorsGetter
+    getter = DirectPredecessorsGetter()
+    x = pt.make_placeholder("x", (3,), np.float64)
+    y = pt.make_placeholder("y", (3,), np.float64)
+    z = pt.make_placeholder("z", (3,), np.float64)
+    for i in range(rounds):
+        col.count("mon.turnover")
+        a = x + y * float(i + 1)
+        getter(a)
+        del a
+        gc.collect()
+        b = (y * z) if i % 2 else pt.stack([z, y])
+        got = {id(n) for n in getter(b)}
+        want = {id(n) for n in DirectPredecessorsGetter()(b)}
+        if got != want:
+            col.violation("C20:preds-depend-on-getter-history",
+                          "a reused DirectPredecessorsGetter reports, for a new node, "
+                          "predecessors that a fresh getter does not (stale answer for a dead "
+                          "node at the same address)", {"round": i})
+            break
+        del b
+
+
 def run_shard(shard: dict[str, Any], col: common.Collector) -> None:
+    if shard.get("idx", 0) == 0 or "idx" not in shard:
+        try:
+            turnover(col)
+        except Exception as e:  # noqa: BLE001
+            col.histo("turnover_unavailable", type(e).__name__)
     for desc in shard["descs"]:
         try:
             with common.time_limit(120):
